@@ -36,6 +36,7 @@ type val struct {
 	v      core.Value
 	packed string
 	lit    string // source literal ("" = has none, only usable as a row value)
+	cv     core.Value // the value the parser gives for lit (may be another number representation than v)
 	k      kind
 }
 
@@ -75,7 +76,9 @@ func litVal(lit string) (x *val, ok bool) {
 	if _, isp := v.(core.Packable); !isp {
 		return nil, false
 	}
-	return mkVal(v, lit), true
+	x = mkVal(v, lit)
+	x.cv = v
+	return x, true
 }
 
 var numLits = []string{"0", "1", "-1", "2", "3", "5", "7", "10", "100", "-5",
@@ -309,6 +312,18 @@ func (n *node) andTerms() []*node {
 	return r
 }
 
+// orAlts returns the alternatives of an or (through nested ors).
+func (n *node) orAlts() []*node {
+	if n.op != "or" {
+		return []*node{n}
+	}
+	var r []*node
+	for _, k := range n.kids {
+		r = append(r, k.orAlts()...)
+	}
+	return r
+}
+
 //-------------------------------------------------------------------
 // generator
 
@@ -489,7 +504,7 @@ func (g *gctx) orIs() []*node {
 }
 
 func (g *gctx) boolean(d int) *node {
-	switch g.w(26, 9, 6, 9, 16, 6, 4, 8, 4, 3, 1) {
+	switch g.w(26, 9, 6, 9, 16, 6, 4, 8, 4, 3, 2) {
 	case 0:
 		return g.cmp(d)
 	case 1: // range, possibly inside a longer conjunction
@@ -571,7 +586,7 @@ func (g *gctx) boolean(d int) *node {
 }
 
 func (g *gctx) num(d int) *node {
-	switch g.w(10, 22, 14, 7, 5, 8, 3, 6, 9) {
+	switch g.w(10, 20, 14, 7, 5, 11, 5, 6, 9) {
 	case 0:
 		return g.atomOf(kNum)
 	case 1:
